@@ -26,6 +26,7 @@ pub fn dispatch(op: &str, req: &Value) -> Value {
         "ron_roundtrip" => ron_roundtrip(req),
         "zerv_roundtrip" => zerv_roundtrip(req),
         "find_root" => find_root(req),
+        "format_template" => format_template(req),
         _ => json!({"error": format!("unknown op {op}")}),
     }
 }
@@ -487,4 +488,20 @@ fn find_root(req: &Value) -> Value {
         Ok(p) => json!({"ok": true, "root": p.to_str().unwrap().strip_prefix(&b).map(|x| x.to_string()).unwrap_or_else(|| p.to_str().unwrap().to_string())}),
         Err(e) => json!({"ok": false, "err": e.to_string()}),
     }
+}
+
+
+/// OutputFormatter::format_output on an object built from schema + vars: with the given template, and without one in
+/// both formats (C15 replay: the CLI's template branch against the plain renderings)
+fn format_template(req: &Value) -> Value {
+    use zerv::cli::utils::output_formatter::OutputFormatter;
+    use zerv::cli::utils::template::Template;
+    let sch = &req["schema"];
+    let schema = match ZervSchema::new(comps(&sch[0]), comps(&sch[1]), comps(&sch[2])) { Ok(s) => s, Err(e) => return json!({"error": format!("schema: {e}")}) };
+    let zerv = Zerv { schema, vars: vars_of(&req["vars"]) };
+    let t = Some(Template::<String>::new(cps_to_string(&req["template"])));
+    let out = |r: Result<String, zerv::error::ZervError>| match r { Ok(s) => json!({"ok": true, "out": string_to_cps(&s)}), Err(e) => json!({"ok": false, "err": e.to_string()}) };
+    json!({"templated": out(OutputFormatter::format_output(&zerv, "semver", None, &t)),
+           "semver": out(OutputFormatter::format_output(&zerv, "semver", None, &None)),
+           "pep440": out(OutputFormatter::format_output(&zerv, "pep440", None, &None))})
 }
